@@ -139,3 +139,105 @@ Proof.
   - apply (conv_I_to_int dbg w lg); assumption.
   - apply (conv_I_to_uint dbg w lg); assumption.
 Qed.
+
+(* ---- FromPrimitive.  buint from_u64 / from_u128 (pb = 64 / 128), bint from_uint! (from_u8 .. from_usize) and from_int!
+   (from_i8 .. from_isize): the loop NumConv.from_loop (fill = 0, resp. the sign-extension digit), the parameter handled as its value ---- *)
+Lemma conv_U_from_uN dbg w lg n pb int : 0 <= lg -> w = 2 ^ lg -> 0 < pb ->
+  forall fuel, (Z.to_nat pb <= fuel)%nat ->
+  bind (while_loop (R := (option (list Z))) fuel
+          (fun '(out, i) => ((ix_shl i (digit_BIT_SHIFT w)) <? pb))
+          (fun '(out, i) =>
+             t1' <- pshr pb int (ix_shl i (digit_BIT_SHIFT w)) ;;
+             let d := (ud w t1') in
+             if (negb (d =? 0)) then (
+               if (i <? Z.of_nat n) then (
+                 out <- arr_set out i d ;;
+                 let i := (i + 1) in
+                 Done (Continue (out, i))
+               ) else (
+                 Done (Return None)
+               )
+             ) else (
+               let i := (i + 1) in
+               Done (Continue (out, i))
+             ))
+          (ZERO n, 0))
+       (fun t2' => match t2' with Exited (out, i) => Done (Some out) | Returned t3' => Done t3' end)
+  = of_out (NumConv.U_from_uN dbg pb w n int).
+Proof.
+  intros Hlg Hw Hpb fuel Hf. assert (Hw0 : 0 < w) by (subst w; apply Z.pow_pos_nonneg; lia).
+  unfold NumConv.U_from_uN, NumConv.from_loop.
+  etransitivity.
+  - apply (from_loop_tie dbg w lg pb n int 0 (fun out => Done (Some out)) Hlg Hw (Z.to_nat pb) fuel 0%nat (ZERO n)); [|exact Hf].
+    cbn [Nat.add]. nia.
+  - destruct (NumConv.while_ret _ _ _ _ _) as [[out|]|]; reflexivity.
+Qed.
+
+Lemma conv_U_from_u64 dbg w lg n int : 0 <= lg -> w = 2 ^ lg ->
+  forall fuel, (64 <= fuel)%nat ->
+  ConvGen.U_from_u64 w (Z.of_nat n) fuel int =
+  match NumConv.U_from_uN dbg 64 w n int with Ret r => Done r | Panic => Panicked end.
+Proof.
+  intros Hlg Hw fuel Hf. unfold ConvGen.U_from_u64. rewrite Nat2Z.id. cbv zeta.
+  apply (conv_U_from_uN dbg w lg n 64 int Hlg Hw); [lia|]. change (Z.to_nat 64) with 64%nat. exact Hf.
+Qed.
+
+Lemma conv_U_from_u128 dbg w lg n int : 0 <= lg -> w = 2 ^ lg ->
+  forall fuel, (128 <= fuel)%nat ->
+  ConvGen.U_from_u128 w (Z.of_nat n) fuel int =
+  match NumConv.U_from_uN dbg 128 w n int with Ret r => Done r | Panic => Panicked end.
+Proof.
+  intros Hlg Hw fuel Hf. unfold ConvGen.U_from_u128. rewrite Nat2Z.id. cbv zeta.
+  apply (conv_U_from_uN dbg w lg n 128 int Hlg Hw); [lia|]. change (Z.to_nat 128) with 128%nat. exact Hf.
+Qed.
+
+Lemma conv_I_from_uint dbg w lg n pb int : 0 <= lg -> w = 2 ^ lg -> 0 < pb ->
+  forall fuel, (Z.to_nat pb <= fuel)%nat ->
+  ConvGen.I_from_uint w (Z.of_nat n) fuel pb int =
+  match NumConv.I_from_uN dbg pb w n int with Ret r => Done r | Panic => Panicked end.
+Proof.
+  intros Hlg Hw Hpb fuel Hf. assert (Hw0 : 0 < w) by (subst w; apply Z.pow_pos_nonneg; lia).
+  unfold ConvGen.I_from_uint, NumConv.I_from_uN, NumConv.obind_opt, NumConv.from_loop, Cast.from_bits.
+  rewrite Nat2Z.id. cbv zeta.
+  etransitivity.
+  - apply (from_loop_tie dbg w lg pb n int 0
+             (fun out => if Core.is_negative w out then Done None else Done (Some out)) Hlg Hw
+             (Z.to_nat pb) fuel 0%nat (ZERO n)); [|exact Hf].
+    cbn [Nat.add]. nia.
+  - destruct (NumConv.while_ret _ _ _ _ _) as [[out|]|]; cbn [of_out bind obind NumConv.and_then]; try reflexivity.
+    destruct (is_negative w out); reflexivity.
+Qed.
+
+Lemma conv_I_from_int dbg w lg n pb int : 0 <= lg -> w = 2 ^ lg -> 0 < pb ->
+  forall fuel, (Z.to_nat pb <= fuel)%nat ->
+  ConvGen.I_from_int w (Z.of_nat n) fuel pb int =
+  match NumConv.I_from_iN dbg pb w n int with Ret r => Done r | Panic => Panicked end.
+Proof.
+  intros Hlg Hw Hpb fuel Hf. assert (Hw0 : 0 < w) by (subst w; apply Z.pow_pos_nonneg; lia).
+  unfold ConvGen.I_from_int, NumConv.I_from_iN, NumConv.obind_opt, NumConv.from_loop. rewrite Nat2Z.id. cbv zeta.
+  etransitivity.
+  - apply (from_loop_tie dbg w lg pb n int (if int <? 0 then u_max w else 0)
+             (fun out => if xorb (int <? 0) (Core.is_negative w out) then Done None else Done (Some out)) Hlg Hw
+             (Z.to_nat pb) fuel 0%nat); [|exact Hf].
+    cbn [Nat.add]. nia.
+  - destruct (NumConv.while_ret _ _ _ _ _) as [[out|]|]; cbn [of_out bind obind NumConv.and_then]; try reflexivity.
+    rewrite xorb_negb_eqb. destruct (negb _); reflexivity.
+Qed.
+
+Theorem conv_C19_from_match_model dbg w lg : 0 <= lg -> w = 2 ^ lg ->
+  forall n int,
+  (forall fuel, (64 <= fuel)%nat -> ConvGen.U_from_u64 w (Z.of_nat n) fuel int =
+     match NumConv.U_from_uN dbg 64 w n int with Ret r => Done r | Panic => Panicked end) /\
+  (forall fuel, (128 <= fuel)%nat -> ConvGen.U_from_u128 w (Z.of_nat n) fuel int =
+     match NumConv.U_from_uN dbg 128 w n int with Ret r => Done r | Panic => Panicked end) /\
+  (forall pb fuel, 0 < pb -> (Z.to_nat pb <= fuel)%nat -> ConvGen.I_from_uint w (Z.of_nat n) fuel pb int =
+     match NumConv.I_from_uN dbg pb w n int with Ret r => Done r | Panic => Panicked end) /\
+  (forall pb fuel, 0 < pb -> (Z.to_nat pb <= fuel)%nat -> ConvGen.I_from_int w (Z.of_nat n) fuel pb int =
+     match NumConv.I_from_iN dbg pb w n int with Ret r => Done r | Panic => Panicked end).
+Proof.
+  intros Hlg Hw n int. split; [|split; [|split]]; intros.
+  - apply (conv_U_from_u64 dbg w lg); assumption.
+  - apply (conv_U_from_u128 dbg w lg); assumption.
+  - apply (conv_I_from_uint dbg w lg); assumption.
+  - apply (conv_I_from_int dbg w lg); assumption.
+Qed.
